@@ -79,6 +79,12 @@ impl fmt::Debug for XfnPtr {
     }
 }
 
+// radix formats print sign and magnitude: `{:x}` of a negative i128 is its two's
+// complement bit pattern, which is not a literal the lexer reads back
+fn sign(n: &Xint) -> &'static str {
+    if *n < 0 { "-" } else { "" }
+}
+
 impl fmt::Debug for Cell {
     fn fmt(&self, f: &mut fmt::Formatter<'_>) -> fmt::Result {
         let flags = f.width().map(|n| FmtFlags::from_raw(n)).unwrap_or_default();
@@ -89,22 +95,22 @@ impl fmt::Debug for Cell {
             Cell::Nil => write!(f, "nil"),
             Cell::Flag(x) => write!(f, "{}", if *x { "true" } else { "false" }),
             Cell::Int(n) => match flags.base() {
-                2 if flags.show_prefix() => write!(f, "{:#b}", n),
-                2 => write!(f, "{:b}", n),
-                8 if flags.show_prefix() => write!(f, "{:#o}", n),
-                8 => write!(f, "{:o}", n),
+                2 if flags.show_prefix() => write!(f, "{}{:#b}", sign(n), n.unsigned_abs()),
+                2 => write!(f, "{}{:b}", sign(n), n.unsigned_abs()),
+                8 if flags.show_prefix() => write!(f, "{}{:#o}", sign(n), n.unsigned_abs()),
+                8 => write!(f, "{}{:o}", sign(n), n.unsigned_abs()),
                 16 if flags.show_prefix() => {
                     if flags.upcase() {
-                        write!(f, "{:#X}", n)
+                        write!(f, "{}{:#X}", sign(n), n.unsigned_abs())
                     } else {
-                        write!(f, "{:#x}", n)
+                        write!(f, "{}{:#x}", sign(n), n.unsigned_abs())
                     }
                 }
                 16 => {
                     if flags.upcase() {
-                        write!(f, "{:X}", n)
+                        write!(f, "{}{:X}", sign(n), n.unsigned_abs())
                     } else {
-                        write!(f, "{:x}", n)
+                        write!(f, "{}{:x}", sign(n), n.unsigned_abs())
                     }
                 }
                 _ => write!(f, "{}", n),
